@@ -17,6 +17,51 @@ CHECKS = {
         "Trusted: the reference tokenizer as a transcription of the C09 statement; unicode.IsSpace; Go's big.Rat.",
         "DESIGN.md §2 C09",
     ),
+    "C01": (
+        "bounded-exhaustive expression trees + rapid grammar-directed generation, differential: independent SQL reader (ClickHouse precedence) vs reference PQL evaluation over enumerated rows",
+        "All trees with <= 3 operator nodes over 27 constructors (with needed and with full parenthesisation) and rapid-generated trees to depth 5/8 in "
+        "twelve expression positions are compiled; the SQL clause holding the translation is parsed with ClickHouse's precedence and evaluated on 25+ row "
+        "valuations including NULLs, and must give the value the generator's tree has under PQL semantics. Compile runs under a CPU watchdog, so a "
+        "parenthesis that stops it from terminating is a violation. Complete for the small trees, sampled for the rest.",
+        "Trusted: harness/sqlx (lexer, precedence table, evaluator), harness/interp, harness/prim (shared value primitives).",
+        "DESIGN.md §2 C01",
+    ),
+    "C02": (
+        "bounded-exhaustive operator-kind sequences + rapid generation of well-typed pipelines and small databases, differential: SQL evaluator vs reference left-to-right interpreter",
+        "Every sequence of the ten non-join operator kinds up to length 3 (thorough 4) with several well-typed argument and database draws, and random "
+        "sequences up to length 8, are compiled, evaluated by the independent SQL evaluator under two name-resolution disciplines and compared (columns, "
+        "rows, order where a sort determines it) with the reference interpreter.",
+        "Trusted: harness/sqlx, harness/interp, harness/prim; list-order-preserving evaluation and stable ORDER BY as the execution model.",
+        "DESIGN.md §2 C02",
+    ),
+    "C03": (
+        "rapid generation of well-typed join programs and small databases, differential: SQL evaluator vs reference join semantics",
+        "Programs with prefixes, all join kinds and condition forms, nested and chained joins, right-hand sides reading `as` names, over three tables with "
+        "duplicates, unmatched rows and NULL keys, compared as multisets (or ordered when a later sort determines it) with the reference interpreter.",
+        "Trusted: as C02.",
+        "DESIGN.md §2 C03",
+    ),
+    "C04": (
+        "rapid generation of skeletons and hostile fillings + native fuzzing, metamorphic relation (benign vs hostile filling) and decode round-trip under two SQL lexers",
+        "Each skeleton is compiled with unique benign markers and with hostile contents in every literal/name hole; both outputs are lexed under standard "
+        "and ClickHouse rules: same token kinds, identical non-hole tokens, and each hole token decodes (ClickHouse rules) to exactly the PQL value.",
+        "Trusted: harness/sqlx lexer in both modes; the reference tokenizer for the PQL spelling of the fillings.",
+        "DESIGN.md §2 C04",
+    ),
+    "C05": (
+        "rapid grammar-directed generation + mutation + bounded-exhaustive token soups + native fuzzing, validity predicate by an independent SQL statement parser",
+        "Every successful compilation of generated programs, compiled mutants, compiled soups and fuzz inputs must lex cleanly under two quoting rule sets, "
+        "hold one trailing semicolon, balance brackets, parse as [WITH ...] select, read only source tables or earlier CTEs, define distinct CTE names and use every CTE.",
+        "Trusted: harness/sqlx statement grammar (deliberately wider than pql's output).",
+        "DESIGN.md §2 C05",
+    ),
+    "C06": (
+        "rapid generation of parameter maps, let sequences and well-typed programs, differential (SQL evaluator with bound placeholders vs lexically scoped interpreter) plus metamorphic and textual relations",
+        "Bindings of every value shape are used in every expression position including join conditions and row counts, with shadowing, chains and colliding "
+        "non-uses; results must agree with lexical scoping, unused bindings must not change the SQL, and snippets must appear verbatim iff used.",
+        "Trusted: as C02.",
+        "DESIGN.md §2 C06",
+    ),
     "C07": (
         "bounded-exhaustive operator sequences + rapid grammar-directed generation, differential against a reference parser / the generator's own tree",
         "All token sequences operand (op operand){1..3} (thorough ..4) over the sixteen binary operators and all sign patterns are parsed and "
@@ -56,12 +101,33 @@ CHECKS = {
         "Trusted: /proc CPU accounting; the budget (slowest legitimate case measured ~8 s wall for six calls). A finite path slower than the budget would be misreported, a hang-free but slow path just under it is missed.",
         "DESIGN.md §2 C12",
     ),
+    "C13": (
+        "rapid generation of rule-abiding programs with one planted rule violation + random strings + bounded-exhaustive token soups + native fuzzing, paired oracle (twin must compile, planted must fail)",
+        "Every documented rule is planted at a rapid-chosen expression slot of any depth into a program that is first shown to compile; all strings must "
+        "satisfy the SQL-xor-error contract.",
+        "Trusted: the slot enumeration of c13_test.go (render property values are not slots).",
+        "DESIGN.md §2 C13",
+    ),
+    "C14": (
+        "rapid stateful generation of call histories, model = memo of isolated results; concurrent execution in fresh race-detector child processes",
+        "Histories mixing all option kinds, Parse and Scan run sequentially (model) and concurrently from 2-16 goroutines in a fresh -race child whose first "
+        "action they are; results must equal the memo, the shared parameter map must be unchanged and the race detector silent. Schedules are sampled, not enumerated.",
+        "Trusted: the Go race detector; a fresh process per history for first-use coverage.",
+        "DESIGN.md §2 C14",
+    ),
     "C15": (
         "bounded-exhaustive enumeration + rapid random concatenations, algebraic laws (join/split round trip, piece-vs-context token equality)",
         "All strings of length <= 4 (thorough 5) over the 27-symbol alphabet and random concatenations of statement fragments: pieces join back to the "
         "source, cut exactly at semicolon tokens, re-scan to their context tokens, and parse to the statement they were in context.",
         "Trusted: reflective tree comparison with span shift.",
         "DESIGN.md §2 C15",
+    ),
+    "C16": (
+        "rapid stateful generation of scripts (statement sequences x layouts x transports), model-based: fold of the statement list with the library's Compile",
+        "The built cmd/pql binary is run on generated scripts over stdin, one file, several files cut anywhere and -o; stdout must equal the model's fold, "
+        "exit status and stderr must reflect failures, toggling the final semicolon must change nothing, over-long lines must not be dropped silently.",
+        "Trusted: pql.Compile as the per-statement oracle (the property is about the tool's bookkeeping, not about Compile).",
+        "DESIGN.md §2 C16",
     ),
 }
 
